@@ -43,7 +43,17 @@ def main():
                     results[(pid, i)] = {"confirmed": False, "why": "patch does not apply on current HEAD: " + oa[-300:]}
                     print(pid, i, results[(pid, i)], flush=True)
                     continue
+                # the suite is run without the demonstration, exactly as the existing tests are
+                demo_path = os.path.join(wt, "tests", name + ".rs")
+                if os.path.exists(demo_path):
+                    os.rename(demo_path, "/tmp/mutcheck_demo.rs")
+                if os.path.exists(demo_diff):
+                    sh("git apply -R %s" % demo_diff, wt)
                 rc_suite, o2 = sh("cargo test --workspace --no-fail-fast --offline", wt)
+                if os.path.exists("/tmp/mutcheck_demo.rs"):
+                    os.rename("/tmp/mutcheck_demo.rs", demo_path)
+                if os.path.exists(demo_diff):
+                    sh("git apply %s" % demo_diff, wt)
                 rc_demo, o3 = sh(cmd, wt)
                 ok = rc_clean == 0 and rc_suite == 0 and rc_demo != 0
                 r = {"confirmed": ok, "clean_demo_rc": rc_clean, "patched_suite_rc": rc_suite, "patched_demo_rc": rc_demo,
